@@ -11,7 +11,7 @@ import (
 const allSnapOracles = ledger.OC01 | ledger.OC03 | ledger.OC09 | ledger.OC10
 
 // runRandomScenarios runs `count` random scenarios of the ledger simulator, reporting violations of `report`.
-func runRandomScenarios(w *core.WorkerCtx, report []string, count int, tweak func(p *ledger.Profile), after func(d *ledger.Driver)) {
+func runRandomScenarios(w *core.WorkerCtx, report []string, count int, tweak func(p *ledger.Profile), after func(d *ledger.Driver), before ...func(d *ledger.Driver)) {
 	for i := 0; i < count; i++ {
 		rng := core.Rand(w.Seed, "ledger", w.Prop, w.Batch, i)
 		p := ledger.RandomProfile(rng, w.Thorough())
@@ -26,6 +26,9 @@ func runRandomScenarios(w *core.WorkerCtx, report []string, count int, tweak fun
 			w.R.Inconc("scenario setup failed: " + err.Error())
 			world.Close()
 			continue
+		}
+		for _, bf := range before {
+			bf(d)
 		}
 		d.Run()
 		if after != nil {
